@@ -573,6 +573,17 @@ clock within the line), reported colours"
     for m128 in [false, true] {
         cases.push(Case { m128, ops: vec![Op::Out(0xFE, 3), Op::Frame, Op::SnapSzx(2, 0x05), Op::Frame, Op::Frame, Op::SetClk(30000), Op::SnapSzx(6, 0x11), Op::Frame, Op::Frame] });
     }
+    // the same value written again after a snapshot load put another colour there: the write is a write
+    for m128 in [false, true] {
+        for (v, snap_border) in [(0x02u8, 5u8), (0x1A, 7), (0x07, 0)] {
+            let mut ops = vec![Op::Out(0x00FE, v), Op::Frame];
+            if !m128 {
+                ops.extend_from_slice(&[Op::Snap(snap_border), Op::Out(0x00FE, v), Op::Frame, Op::Frame]);
+            }
+            ops.extend_from_slice(&[Op::SnapSzx(snap_border, snap_border), Op::SetClk(20000), Op::Out(0x00FE, v), Op::Frame, Op::Frame, Op::Frame]);
+            cases.push(Case { m128, ops });
+        }
+    }
     // very busy frames: more border changes in one frame than any fixed-size queue a renderer might keep
     // (1025, 1100, 2050 writes), the last one of its own colour, then quiet frames
     for m128 in [false, true] {
